@@ -504,7 +504,7 @@ def _structured(rng, tier):
     return case
 
 
-def _history(rng, tier, force=None):
+def _history(rng, tier, force=None, how=None):
     """the observed run is the SECOND run of one object whose settings were changed in between
     (cooling rate only / t_tot / a hold duration / dt / T_k_0 / shelf coefficient): every
     step must follow the program and coefficients in force for THAT run"""
@@ -525,7 +525,7 @@ def _history(rng, tier, force=None):
         c["N_vials"] = [a, b, 1]
         while stability(c) > 0.9:
             c["dt"] = c["dt"] / 2
-    pre = {"how": rng.choice(["mutate", "assign"])}
+    pre = {"how": how or rng.choice(["mutate", "assign"])}
     poc = json.loads(json.dumps(oc))
     if what in ("rate", "rate+dt"):
         poc["rate"] = oc["rate"] * rng.choice([1.25, 0.8, 2.0, 0.5])
@@ -671,7 +671,8 @@ def cases(rng, tier):
     for _ in range(n):
         yield _structured(rng, tier)
     for j in range(nh):
-        yield _history(rng, tier, force="rate_fine" if j < 4 else "shape" if j < 6 else None)
+        yield _history(rng, tier, force="rate_fine" if j < 4 else "shape" if j < 6 else None,
+                       how=("mutate" if j % 2 == 0 else "assign") if j < 4 else None)
     for _ in range(4 if tier == "quick" else 40):
         yield _subset(rng, tier)
     for _ in range(nt):
